@@ -34,6 +34,12 @@ DET = {
  "C10-2": ("C10", "caught after lib/astsym learnt any/all, math.prod, comb, list.count, set de-duplication, `for` over guarded lists, `while` with symbolic trip count and interpreting module-level helpers (_prime_factorization) from their source (before: Unsupported -> exit 3)"),
  "C07-1": ("C07", "caught after the cache-aliasing obligations were added (sibling expressions requested from the real cached _lambdify_type_check; the returned function's source must compute the requested sibling)"),
  "C07-2": ("C07", "caught after configurations with integer throughputs that do not divide the action counts and a single latency-bearing component were added (the only way a symengine Rational reaches _to_sp)"),
+ "C08-1": ("C10", "NOT caught by C08 (imperfect factorisation is outside its tile-space specification); caught by C10 after the imperfect-mode candidate obligation was extended to outer sizes the inner size does not divide (the solver finds n=5, inner=2)"),
+ "C08-2": ("C08", "caught after loop-bound constraints and spatial loops became part of the tile-space specification (PE-array configurations with `~m <= 2`)"),
+ "C05-3": ("C05", "caught by the first version (read and write widths are independent symbols); one run ended exit 3 because an arbitrary rational witness did not survive the float replay - witnesses are now chosen dyadic"),
+ "C05-4": ("C05", "caught by the first version"),
+ "C28-3": ("C28", "caught by the first version (every per_* flag combination is an obligation)"),
+ "C28-4": ("C28", "caught only by the VALIDATION added afterwards (one real two-objective mapper front, every row's breakdowns against its Total columns); the concatenation of per-mapping frames in map_workload_to_arch is pandas code outside the symbolic part"),
  "C28-2": ("C28", "caught after derived result sets (drop_components_with_zero_energy_and_latency, drop_zeros) were included with literal-zero cell patterns"),
 }
 REJECT = {"C06-1": "rejected: with the change three baseline tests fail (tests.test_mapper.TestMapperFanoutTwoMatmuls::test_at_glb, ::test_at_glb_with_fanout_node, tests.test_toll.TestToll::test_toll_not_outermost_holder_of_intermediate); the check did catch it after the skeleton family was extended with tensors that are never held in the outermost memory"}
@@ -48,6 +54,11 @@ for b in blocks:
     d = re.search(r"demo with patch exit=(\d+) ; without exit=(\d+)", rest)
     if t and d:
         conf[f"{pid}-{k}"] = dict(mode=mode, ran=int(t.group(1)), stable=int(t.group(2)), newly_failing=int(t.group(3)), demo_with=int(d.group(1)), demo_without=int(d.group(2)))
+# per-seed result files written by confirm_seed.sh (authoritative: the shared log interleaves when several queues run)
+import glob
+for f in glob.glob("/tmp/confirm.C*.result.json"):
+    r = json.load(open(f))
+    conf[r["seed"]] = dict(mode=r["mode"], ran=r["ran"], stable=r["stable"], newly_failing=r["newly_failing"], demo_with=r["demo_with"], demo_without=r["demo_without"])
 # C30 was confirmed by hand before the queue existed
 conf.setdefault("C30-1", dict(mode="fast", ran=877, stable=871, newly_failing=0, demo_with=1, demo_without=0))
 conf.setdefault("C30-2", dict(mode="fast", ran=877, stable=871, newly_failing=0, demo_with=1, demo_without=0))
